@@ -3,7 +3,8 @@ package main
 // The root module behind the driver's srvModule interface: ONE real server with three filters and resources whose methods
 // echo what they were given (path keys, query, the per-request value a filter put in the context) and hand back objects
 // SHARED between all requests (error responses with and without a Message, success values).  srv_root.go is this file for
-// the root module (generated with the sed command in checks/c17.py; import paths and identifiers only).
+// the root module (generated with the sed command in checks/c17.py; import paths and identifiers only).  What differs between
+// the modules beyond names (how a RequiredFields object is constructed) is in the hand-written req_*.go (one per module).
 
 import (
 	"context"
@@ -74,6 +75,117 @@ func (e *rootent) String() string {
 		return "<nil>"
 	}
 	return fmt.Sprintf("key=%s ctx=%s method=%s query=%s", e.Key, e.Ctx, e.Method, e.Query)
+}
+
+// ---- a WIDE record in the style of the generated ones: wideN required int fields (two included records + its own) and
+// one optional string.  Field names and documents come from main.go (wideNames, wideIndex, wideJSON, wideRor2).
+
+// What a generated package keeps at package level for its records and what every request decoding them shares: the
+// XxxRequiredFields objects (and a read-only PathSpec).  rootfreshSchema replaces all of them with newly constructed ones; it
+// is only called while no request is in flight (rootbuild), so that the requests that follow are the FIRST users of the new
+// objects.
+var (
+	rootwideRequired  rootrequired // the record: NewRequiredFields(<included records>...).Add(<own fields>...)
+	rootqueryRequired rootrequired // the query parameters of finder byAll: the same names as query parameters
+	rootrecRequired   rootrequired // the query parameters of finder byRec: one record-valued parameter
+)
+
+func rootfreshSchema() {
+	a, b := wideN/4, wideN/2
+	rootwideRequired = rootnewRequired([][]string{wideNames[:a], wideNames[a:b]}, wideNames[b:])
+	rootqueryRequired = rootnewRequired(nil, wideNames)
+	rootrecRequired = rootnewRequired(nil, []string{"rec"})
+	rootreadOnly = restlicodec.NewPathSpec("method", "query")
+}
+
+type rootwide struct {
+	Vals []int32 // Vals[i] is field wideNames[i]
+	Got  int     // how many of them were decoded
+	Note string
+}
+
+func (*rootwide) NewInstance() *rootwide { return &rootwide{} }
+func (e *rootwide) MarshalRestLi(w restlicodec.Writer) error {
+	return w.WriteMap(func(kw func(string) restlicodec.Writer) error {
+		for i, n := range wideNames {
+			v := int32(0)
+			if i < len(e.Vals) {
+				v = e.Vals[i]
+			}
+			kw(n).WriteInt32(v)
+		}
+		if e.Note != "" {
+			kw("note").WriteString(e.Note)
+		}
+		return nil
+	})
+}
+func (e *rootwide) unmarshalField(r restlicodec.Reader, field string) (err error) {
+	if i, ok := wideIndex[field]; ok {
+		e.Vals[i], err = r.ReadInt32()
+		e.Got++
+		return err
+	}
+	if field == "note" {
+		e.Note, err = r.ReadString()
+		return err
+	}
+	return r.Skip()
+}
+func (e *rootwide) UnmarshalRestLi(r restlicodec.Reader) error {
+	e.Vals = make([]int32, wideN)
+	return r.ReadRecord(rootwideRequired, e.unmarshalField)
+}
+func (e *rootwide) sum() (s int64) {
+	for _, v := range e.Vals {
+		s += int64(v)
+	}
+	return s
+}
+func (e *rootwide) String() string {
+	if e == nil {
+		return "<nil>"
+	}
+	return fmt.Sprintf("wide got=%d sum=%d note=%s", e.Got, e.sum(), e.Note)
+}
+func rootnewWide(note string) *rootwide {
+	e := &rootwide{Vals: make([]int32, wideN), Got: wideN, Note: note}
+	for i := range e.Vals {
+		e.Vals[i] = int32(i)
+	}
+	return e
+}
+
+// the resource refuses what the decoder should never have let through: a record that is not complete
+func (e *rootwide) check() error {
+	if e == nil || e.Got != wideN || e.sum() != wideSum {
+		return fmt.Errorf("incomplete wide record reached the resource: %s", e.String())
+	}
+	return nil
+}
+
+// query parameters of the finders of /wide: byAll takes every field of the record as a query parameter
+// (QueryParamsReader.ReadRecord), byRec takes the whole record as ONE parameter in the URL encoding (the ROR2 reader's
+// ReadRecord)
+type rootwideQuery struct{ all rootwide }
+
+func (*rootwideQuery) NewInstance() *rootwideQuery { return &rootwideQuery{} }
+func (q *rootwideQuery) DecodeQueryParams(reader restlicodec.QueryParamsReader) error {
+	q.all.Vals = make([]int32, wideN)
+	return reader.ReadRecord(rootqueryRequired, q.all.unmarshalField)
+}
+
+type rootrecQuery struct{ rec *rootwide }
+
+func (*rootrecQuery) NewInstance() *rootrecQuery { return &rootrecQuery{} }
+func (q *rootrecQuery) DecodeQueryParams(reader restlicodec.QueryParamsReader) error {
+	return reader.ReadRecord(rootrecRequired, func(r restlicodec.Reader, field string) error {
+		if field == "rec" {
+			q.rec = &rootwide{}
+			return q.rec.UnmarshalRestLi(r)
+		}
+		return r.Skip()
+	})
 }
 
 // ---- objects the resource implementation shares between ALL requests
@@ -232,6 +344,7 @@ func rootsegs(s string) []restli.ResourcePathSegment {
 }
 
 func rootbuild() *srvInst {
+	rootfreshSchema() // no request is in flight: the requests through the new server are the first users of the new objects
 	sh := rootnewShared()
 	srv := restli.NewServer(rootfilterReq{}, rootfilterPass{}, rootfilterMethod{})
 	type RC = *restli.RequestContext
@@ -340,6 +453,69 @@ func rootbuild() *srvInst {
 	restli.RegisterGet(srv, single, func(ctx RC, rp *rootrp, _ *rootqp) (*rootent, error) { rootecho(ctx, rp); return sh.ent, nil })
 	restli.RegisterUpdate(srv, single, none, func(ctx RC, rp *rootrp, _ *rootent, _ *rootqp) error { rootecho(ctx, rp); return nil })
 	restli.RegisterAction(srv, single, "ping", func(ctx RC, rp *rootrp, _ restlidata.EmptyRecord) error { rootecho(ctx, rp); return sh.errNilMsg })
+
+	// the wide record: the server decodes it from JSON bodies (create, update, batch update, action parameters), from query
+	// parameters (finder byAll) and from the URL encoding (finder byRec); the client decodes it from every response
+	wide := rootsegs("wide+")
+	type updates = restlidata.BatchResponse[string, *restlidata.BatchEntityUpdateResponse]
+	restli.RegisterGet(srv, wide, func(ctx RC, rp *rootrp, _ *rootqp) (*rootwide, error) { return rootnewWide(rootecho(ctx, rp).Ctx), nil })
+	restli.RegisterCreate(srv, wide, none, func(ctx RC, rp *rootrp, v *rootwide, _ *rootqp) (*restlidata.CreatedEntity[string], error) {
+		e := rootecho(ctx, rp)
+		if err := v.check(); err != nil {
+			return nil, err
+		}
+		return &restlidata.CreatedEntity[string]{Id: "wide-" + v.Note + "-" + e.Ctx}, nil
+	})
+	restli.RegisterUpdate(srv, wide, none, func(ctx RC, rp *rootrp, v *rootwide, _ *rootqp) error {
+		rootecho(ctx, rp)
+		if err := v.check(); err != nil {
+			return err
+		}
+		ctx.ResponseHeaders.Set("X-Updated", v.Note)
+		return nil
+	})
+	restli.RegisterBatchGet(srv, wide, func(ctx RC, rp *rootrp, keys []string, _ *restli.SliceBatchQueryParams[string]) (*restlidata.BatchResponse[string, *rootwide], error) {
+		e := rootecho(ctx, rp)
+		r := &restlidata.BatchResponse[string, *rootwide]{}
+		for _, k := range keys {
+			r.AddResult(k, rootnewWide(e.Ctx))
+		}
+		return r, nil
+	})
+	restli.RegisterBatchUpdate(srv, wide, none, func(ctx RC, rp *rootrp, vs map[string]*rootwide, _ *restli.SliceBatchQueryParams[string]) (*updates, error) {
+		e := rootecho(ctx, rp)
+		r := &updates{}
+		for k, v := range vs {
+			if err := v.check(); err != nil {
+				return nil, err
+			}
+			r.AddResult(k+"-"+e.Ctx, &restlidata.BatchEntityUpdateResponse{Status: 204})
+		}
+		return r, nil
+	})
+	restli.RegisterFinder(srv, wide, "byAll", func(ctx RC, rp *rootrp, q *rootwideQuery) (*restlidata.Elements[*rootwide], error) {
+		e := rootecho(ctx, rp)
+		q.all.Note = e.Ctx
+		if err := q.all.check(); err != nil {
+			return nil, err
+		}
+		return &restlidata.Elements[*rootwide]{Elements: []*rootwide{&q.all}}, nil
+	})
+	restli.RegisterFinder(srv, wide, "byRec", func(ctx RC, rp *rootrp, q *rootrecQuery) (*restlidata.Elements[*rootwide], error) {
+		rootecho(ctx, rp)
+		if err := q.rec.check(); err != nil {
+			return nil, err
+		}
+		return &restlidata.Elements[*rootwide]{Elements: []*rootwide{q.rec}}, nil
+	})
+	restli.RegisterActionWithResults(srv, wide, "check", restlicodec.MarshalRestLi[string],
+		func(ctx RC, rp *rootrp, p *rootwide) (string, error) {
+			e := rootecho(ctx, rp)
+			if err := p.check(); err != nil {
+				return "", err
+			}
+			return "checked:" + p.Note + ":" + e.Ctx, nil
+		})
 
 	h := srv.Handler() // the ONE handler every request of the run goes through
 
@@ -469,6 +645,43 @@ func rootcall(c *restli.Client, op, id string) string {
 	case "missing":
 		v, err := restli.Get[*rootent](c, ctx, rp("/nosuch/"+id), nil)
 		out = v.String() + " " + rooterrString(err)
+	case "wide-get":
+		v, err := restli.Get[*rootwide](c, ctx, rp("/wide/"+id), nil)
+		out = v.String() + " " + rooterrString(err)
+	case "wide-create":
+		ce, err := restli.Create[string](c, ctx, rp("/wide"), rootnewWide(id), nil, nil)
+		if ce != nil {
+			out = fmt.Sprintf("id=%s status=%d location=%s ", ce.Id, ce.Status, rootptr(ce.Location))
+		}
+		out += rooterrString(err)
+	case "wide-update":
+		out = rooterrString(restli.Update(c, ctx, rp("/wide/"+id), rootnewWide(id), nil, nil))
+	case "wide-find-all", "wide-find-rec": // both queries are longer than the tunnelling threshold
+		q := "q=byRec&rec=" + wideRor2(id)
+		if op == "wide-find-all" {
+			q = "q=byAll&" + wideQuery
+		}
+		r, err := restli.Find[*rootwide](c, ctx, rp("/wide"), restli.QueryParamsString(q))
+		if r != nil {
+			for _, e := range r.Elements {
+				out += "[" + e.String() + "]"
+			}
+		}
+		out += " " + rooterrString(err)
+	case "wide-batch-get":
+		r, err := restli.BatchGet[string, *rootwide](c, ctx, rp("/wide"), []string{id, "k2"}, nil)
+		if r != nil {
+			keys := []string{}
+			for k, v := range r.Results {
+				keys = append(keys, k+"="+v.String())
+			}
+			sort.Strings(keys)
+			out = strings.Join(keys, ";")
+		}
+		out += " " + rooterrString(err)
+	case "wide-action":
+		s, err := restli.DoActionRequestWithResults(c, ctx, rp("/wide"), restli.QueryParamsString("action=check"), rootnewWide(id), restlicodec.UnmarshalRestLi[string])
+		out = s + " " + rooterrString(err)
 	default:
 		panic("unknown client op " + op)
 	}
